@@ -264,11 +264,66 @@ class Fn:
         self._pdom = None
         self._reach = None
         self._decl_of_var = None
+        self._thread_short_circuit()
         self.self_params = set()
         self.param_subst = {}
         self.helper_skey = None
         self.body_helper = None      # constructor / destructor whose body is one call of a private helper: that helper (facts.TU._collapse_forwarders)
         self.forward_of = None
+
+    def _thread_short_circuit(self):
+        """clang builds `while(A && B)` / `for(;A || B;)` with a merge block M that branches on the value of the whole `A op B`: the
+        block evaluating A reaches M directly when A decides the result, the block(s) finishing B flow into M. Branching on the
+        merged value loses which operand decided. The edges are threaded instead (as clang does itself for `if`): the deciding edge
+        of A goes straight to the corresponding successor of M, and the block finishing B branches on B with M's successors."""
+        if os.environ.get('EPP_NO_THREAD'):
+            return
+        for _ in range(4):
+            changed = False
+            for m, mb in self.blocks.items():
+                c = mb.get('cond')
+                if c is None or len(mb.get('succ', [])) != 2:
+                    continue
+                co = self.nodes.get(c)
+                if not co or co['cls'] != 'BinaryOperator' or co.get('op') not in ('&&', '||') or len(co.get('kids', [])) != 2:
+                    continue
+                if [e.get('n') for e in mb['elems'] if e['k'] == 'stmt'] not in ([c], []):
+                    continue
+                if any(e['k'] != 'stmt' for e in mb['elems']):
+                    continue
+                decided = mb['succ'][1] if co['op'] == '&&' else mb['succ'][0]
+                preds = [(p, pb) for p, pb in self.blocks.items() if m in pb.get('succ', [])]
+                ok = True
+                plan = []
+                for p, pb in preds:
+                    if pb.get('term') == c and len(pb['succ']) == 2:
+                        plan.append(('lhs', p))
+                    elif pb.get('succ') == [m] and pb.get('cond') is None:
+                        plan.append(('rhs', p))
+                    else:
+                        ok = False
+                if not ok or not plan:
+                    continue
+                for kind, p in plan:
+                    pb = self.blocks[p]
+                    if kind == 'lhs':
+                        idx = 1 if co['op'] == '&&' else 0
+                        if pb['succ'][idx] == m:
+                            pb['succ'][idx] = decided
+                        else:
+                            ok = False
+                    else:
+                        pb['succ'] = list(mb['succ'])
+                        pb['cond'] = co['kids'][1]
+                        pb['fullcond'] = mb.get('fullcond')
+                        pb['term'] = mb.get('term')
+                        pb['termcls'] = mb.get('termcls')
+                mb['succ'] = []
+                mb['cond'] = None
+                mb['threaded'] = True
+                changed = True
+            if not changed:
+                break
 
     # ---- identity -------------------------------------------------------------------
     def locpos(self):
